@@ -35,10 +35,18 @@ impl LintPass for OverlappingFunctionCheck {
                     || node.prevs().iter().any(|prev| owners(prev) != owners(&node)))
             {
                 // HACK: Create a dummy label with the same name
-                // The first label in the source, whatever the labels are called
+                // The label that stands directly in front of the instruction,
+                // whatever the labels are called: labels in the file of the
+                // instruction are closer than labels of an including or
+                // included file, and a later position is closer.
                 let mut labels = node.labels().into_iter().collect::<Vec<_>>();
-                labels.sort_by(|a, b| a.range().cmp(&b.range()).then_with(|| a.cmp(b)));
-                let location = match labels.first() {
+                labels.sort_by(|a, b| {
+                    (a.file() == node.file())
+                        .cmp(&(b.file() == node.file()))
+                        .then_with(|| a.range().cmp(&b.range()))
+                        .then_with(|| a.cmp(b))
+                });
+                let location = match labels.last() {
                     Some(l) => ParserNode::Label(Label {
                         name: l.clone(),
                         key: Uuid::new_v4(),
